@@ -133,6 +133,8 @@ func (zr zeroReader) Read(b []byte) (int, error) {
 // expandSparse grows the file with zero blocks of 4096
 // A small blocksize is chosen to aid in deduplication
 func (dm *DagModifier) expandSparse(size int64) error {
+	// The DAG is about to change: an active reader would keep serving the old one
+	dm.dropReader()
 	r := io.LimitReader(zeroReader{}, size)
 	spl := chunker.NewSizeSplitter(r, 4096)
 	nnode, err := dm.appendData(dm.curNode, spl)
@@ -147,6 +149,15 @@ func (dm *DagModifier) expandSparse(size int64) error {
 	// Without this, writes after sparse expansion would go to the old node.
 	dm.curNode = nnode
 	return nil
+}
+
+// dropReader discards the reader kept between Read calls (it is re-created,
+// positioned at the current offset, by the next Read).
+func (dm *DagModifier) dropReader() {
+	if dm.read != nil {
+		dm.read = nil
+		dm.readCancel()
+	}
 }
 
 // Write continues writing to the dag at the current offset
@@ -740,6 +751,8 @@ func (dm *DagModifier) Truncate(size int64) error {
 	if size == realSize {
 		return nil
 	}
+	// The DAG is about to change: an active reader would keep serving the old one
+	dm.dropReader()
 
 	// Truncate can also be used to expand the file
 	if size > realSize {
